@@ -77,6 +77,11 @@ PROPS = {
     "C16": dict(runs=[oph("^Harness_C16_"), opc("^Harness_C16_")],
                 bounds=["states constructed through the keepers' own setters on an empty chain: L1: 0..1 (quick) / 0..2 (thorough) bridges with consecutive ids, each with 1..m batch infos, 0..m token pairs, outputs, claims; L2: 0..2 validators with powers, both sequences, bridge info present/absent, 0..m denom pairs", "all contents symbolic"],
                 outside=["larger states", "JSON canonical form / byte-level encoding of the genesis file"], assumptions=COMMON_ASSUME),
+    "C15": dict(runs=[opc("^Harness_C15_")],
+                level_text="Bounded symbolic model checking of the OPinit-owned part of the oracle path: the message handler, L2OracleHandler.UpdateOracle, ValidateVoteExtensions, GetOracleVotes, WritePrices and the host-validator store are executed from go/ssa; connect's codecs, its vote aggregator (per-pair two-thirds median over distinct validators) and ed25519 are stubs (arbitrary deterministic functions), so the claim is about what OPinit's own code guarantees given any behaviour of those.",
+                bounds=["handler step: 0..1 votes, 0..1 recorded L1 validators, 0..1 registered currency pairs, aggregated map with/without the timestamp pair plus 0..1 other pairs (nil or non-nil price)", "signature validation on its own: exactly 2 (quick) / 3 (thorough) votes over 0..2 recorded validators, votes may repeat a validator", "host validator set replacement: 0..2 stored, 0..2 new validators"],
+                outside=["connect's aggregator/median, compression and protobuf codecs, ed25519 (stubs)", "recorded stake of 2^63 or more (Int64 conversion panics: the message fails, nothing is written)", "the per-pair two-thirds power threshold over distinct validators is enforced by connect's aggregator, not by OPinit code: assumed, not checked"],
+                assumptions=COMMON_ASSUME + ["length-delimited protobuf encoding of CanonicalVoteExtension is an injective function of its four fields", "signature verification is an uninterpreted predicate sigOK(key, message, signature)", "recorded validator-set heights are non-negative"]),
     "C18": dict(runs=[oph("^Harness_C18_L1_"), opc("^Harness_C18_L2_"),
                       dict(pkg="./x/opchild,./x/opchild/keeper", overlays=[("./x/opchild", "harness/opchild_abci"), ("./x/opchild/keeper", "harness/opchild")],
                            harness="^Harness_C18_L2_(End|Begin)Blocker$", pkgname="opchild", native=["rt.go.tmpl", "opchild_keeper.go.tmpl"], native_pkg="./x/opchild/keeper", native_pkgname="keeper",
